@@ -127,6 +127,55 @@ def variant_guards(body, bb):
     return set((a[1], a[2]) for a in cfg.guard_atoms(body, bb) if a[0] == 'variant')
 
 
+def variant_may_be(body, bb, adt, name):
+    """is `bb` reachable when the matched enum `adt` is variant `name`: a single-variant arm or a merged arm `A | B` containing it"""
+    for a in cfg.guard_atoms(body, bb):
+        if a[0] == 'variant' and a[1] == adt and a[2] == name:
+            return True
+        if a[0] == 'variantin' and a[1] == adt and name in a[2]:
+            return True
+    return False
+
+
+def region(fb, body, depth=2):
+    """the body, its closures, and the local helper functions of the same source file it calls (transitively up to `depth`):
+    what an extract-method refactoring may spread a function over"""
+    out = []
+    seen = set()
+
+    def add(b, d):
+        if b.name in seen:
+            return
+        for x in fb.tree(fb.root_of(b.name)) if False else fb.tree(b.name):
+            if x.name in seen:
+                continue
+            seen.add(x.name)
+            out.append(x)
+            if d > 0:
+                for s in x.sites:
+                    t = _local_target(x, s)
+                    if t is not None and t.file == body.file and t.name.startswith('rnacos::') and not t.parent:
+                        add(t, d - 1)
+    add(body, depth)
+    return out
+
+
+def region_calls(fb, body, pat, depth=2):
+    """[(body_in_region, site)] of calls matching pat anywhere in the region"""
+    out = []
+    for b in region(fb, body, depth):
+        for s in b.calls(pat):
+            out.append((b, s))
+    return out
+
+
+def region_assigned_fields(fb, body, owner_pat=None, depth=2):
+    out = set()
+    for b in region(fb, body, depth):
+        out |= assigned_fields(b, owner_pat)
+    return out
+
+
 def const_ints(body):
     return [int(c['v']) for (_, c) in body.consts() if 'v' in c and str(c['v']).lstrip('-').isdigit()]
 
@@ -256,3 +305,50 @@ def field_accesses_of_local(body, local):
                 if f is not None:
                     reads.append((f, i, 'use'))
     return reads, writes
+
+
+def stale_self_reads(body, self_local=None):
+    """[(G, F, read_bb, write_bb)]: an assignment self.G = e (G != F) whose value depends on a read of self.F made at read_bb, while self.F
+    itself is assigned later (write_bb reachable from read_bb): the new G is computed from a value of F that is about to be replaced"""
+    from .cfg import reach_from
+    out = []
+    # reads of self.F into locals
+    reads = []  # (F, bb, dst_local)
+    writes = []  # (F, bb, stmt)
+    for i, j, s in body.stmts():
+        d = s.get('d')
+        rv = s.get('rv')
+        if d is not None and not isinstance(d, int):
+            fo = pl_field_owners(d)
+            if fo and _rooted_self(body, d, self_local):
+                writes.append((fo[0][1], i, s))
+        if rv is not None and isinstance(d, int):
+            for p in rv_places(rv):
+                if not isinstance(p, int) and _rooted_self(body, p, self_local):
+                    fo = pl_field_owners(p)
+                    if fo:
+                        reads.append((fo[0][1], i, d))
+    for (F, rb, t) in reads:
+        later = [wb for (F2, wb, ws) in writes if F2 == F and wb != rb and wb in reach_from(body, [rb])]
+        if not later:
+            continue
+        tt = Taint(body, local_src=[t], through_calls=False)   # direct arithmetic / copies only
+        for (G, wb2, ws) in writes:
+            if G == F:
+                continue
+            if any(tt.op_tainted(o) for o in rv_operands(ws['rv'])):
+                # the dependent assignment must happen (it does if reachable from the read)
+                if wb2 in reach_from(body, [rb]):
+                    out.append((G, F, rb, later[0]))
+    return out
+
+
+def _rooted_self(body, p, self_local):
+    l = pl_local(p)
+    if self_local is not None:
+        return l == self_local
+    n = body.local_name(l)
+    return n == 'self'
+
+
+from .facts import pl_field_owners
